@@ -27,7 +27,7 @@ VARIANTS = {
                  ldflags=['-fsanitize=address,undefined', '-shared'], kind='so'),
     # same plus gcov counters (evidence: which anchored code the monitors actually saw)
     'cov': dict(cc='gcc', cflags=['-O0', '-g', '--coverage', '-fPIC'],
-                ldflags=['--coverage', '-shared'], kind='so'),
+                ldflags=['--coverage', '-shared'], kind='so', defines=['-DVP_COVERAGE']),
     # uninstrumented, for valgrind memcheck of the standalone parse runner
     'plain': dict(cc='gcc', cflags=['-O1', '-g', '-fno-omit-frame-pointer'], ldflags=[], kind='exe',
                   main='parse_run.c'),
